@@ -337,6 +337,8 @@ def staged_strategy():
         {
             "uri": st.one_of(st.none(), uri),
             "has_beacon": st.booleans(),
+            # calls made on the same capture object before the one that is judged (a capture sees many responses)
+            "pre": st.lists(st.sampled_from(["stager_empty", "stager_beacon", "plain_empty", "norequest_empty"]), max_size=3),
             "key": st.sampled_from([0x2E, 0x69, 0x00]),
             "port": st.integers(0, 65535),
             "prefix": st.binary(max_size=40),
@@ -386,6 +388,12 @@ def staged_execute(case, stats):
     req = None if uri is None else HttpRequest(method=b"GET", uri=uri.encode() if uri_bytes is None else uri_bytes, params={}, headers={}, body=b"")
     resp = HttpResponse(status=200, headers={}, reason=b"OK", body=body, request=req)
     cap = pcap.BeaconCapture(pcap="/nonexistent.pcap")
+    for kind in case.get("pre") or []:
+        pre_uri = {"stager_empty": "/aaa9", "stager_beacon": "/aaa9", "plain_empty": "/index.html", "norequest_empty": None}[kind]
+        pre_body = tlv.xor1(tlv.encode(settings, pad_to=256), 0x2E) if kind == "stager_beacon" else b"<html>nothing here</html>"
+        pre_req = None if pre_uri is None else HttpRequest(method=b"GET", uri=pre_uri.encode(), params={}, headers={}, body=b"")
+        pre = lib(cap.find_staged_beacon, HttpResponse(status=200, headers={}, reason=b"OK", body=pre_body, request=pre_req), what="find_staged_beacon (earlier response)")
+        check((pre is not None) == (kind == "stager_beacon"), "staged:earlier_response", f"earlier response {kind}: returned {pre!r}")
     got = lib(cap.find_staged_beacon, resp)
     stager = uri is not None and (ref_is_x86(uri) or ref_is_x64(uri))
     if uri is not None and not stager:
@@ -399,13 +407,13 @@ def staged_execute(case, stats):
     stats.note(
         case,
         uri is not None,
-        classes=["no_request" if uri is None else ("stager" if stager else "non_stager"), "beacon" if case["has_beacon"] else "no_beacon"] + (["empty_uri"] if uri == "" else ["non_ascii_uri"] if uri_bytes is not None else []),
+        classes=["no_request" if uri is None else ("stager" if stager else "non_stager"), "beacon" if case["has_beacon"] else "no_beacon"] + (["empty_uri"] if uri == "" else ["non_ascii_uri"] if uri_bytes is not None else []) + (["after_earlier_responses"] if case.get("pre") else ["first_response"]),
     )
 
 
 def large_enumerate(tier, shard, nshards):
     def gen():
-        for size in (65535, 65536, 65537, 70001, 131075, 200000):
+        for size in (65535, 65536, 65537, 70001, 131072, 131075, 200000, 1048576, 2097152):
             for klen in (1, 3, 4, 5, 7, 16, 255, 65537):
                 yield {"size": size, "klen": klen}
 
